@@ -3,9 +3,8 @@ package main
 import (
 	"fmt"
 	"go/constant"
-	"go/token"
 	"go/types"
-	"sort"
+	"os"
 	"strings"
 
 	"golang.org/x/tools/go/ssa"
@@ -14,10 +13,10 @@ import (
 func init() {
 	register(&propDef{
 		id: "C47", run: runC47, minOblig: 75,
-		explanation: "Decides structural necessary conditions of the OTR conversation property. (AKE transition table) the authentication state machine inside Conversation.Receive is extracted from the code by flow-sensitive finite-domain evaluation — for every (message type in {DH-Commit, DH-Key, Reveal-Signature, Signature} x authState in {None, AwaitingDHKey, AwaitingRevealSig, AwaitingSig}, and both outcomes of the commit comparison / duplicate-key test) the sequence of Conversation methods called on the success path, the successor authState, the message state and the reported SecurityChange — and compared with the OTR version 2 specification's table (in particular: a repeated D-H Commit in AwaitingRevealSig retransmits the SAME D-H Key, every other acceptance of a commit generates a fresh one after reset; the winner of a SYN-crossing retransmits its commit; Reveal-Signature / Signature are processed only in their awaiting states and alone switch the message state to encrypted); data messages are processed only in the encrypted state. (fragments) the reassembly automaton in processFragment is extracted the same way over k, n, stored k, stored n in 0..3 (256 cases) and compared with the specification's rules. (data MAC) in processData the decryption, the counter update, key rotation and every non-nil plaintext are reachable only on the success edge of the constant-time MAC comparison with equal lengths; the MAC is HMAC-SHA1 keyed with the receiving slot key over version bytes followed by exactly the received bytes that precede the MAC; the counter-regression test precedes decryption. (SMP dispatch) for every (TLV type x SMP state) the set of reachable handler calls equals the specification's (wrong-state messages reset and answer with an abort); the TLV types Receive forwards are exactly those processSMP's switches handle, so its default panic is unreachable. (panics) every explicit panic reachable from Receive in the call graph is in a justified table (random-source or primitive failure = environment; state-machine defaults discharged by the tables above); constant indices into decoded slices (msg[0..2], the MPI lists of the four SMP processors, the getUxx helpers) are unreachable when the slice is shorter (evaluated for every length 0..21). NOT decided: that honest peers derive equal keys (modular arithmetic), SMP zero-knowledge proof arithmetic, delivery of every message, implicit panics on variable indices.",
-		assumptions: []string{"VTA call graph over-approximates interface dispatch", "the reference tables transcribe the OTR v2 protocol description (sections 'The protocol state machine', 'Fragmentation', 'Socialist Millionaires Protocol')"},
+		explanation: "Decides structural necessary conditions of the OTR conversation property, independently of how the code is factored (helpers of the package that are not protocol steps themselves are interpreted / searched in place; values are identified by provenance and by struct field, never by the name of a local, parameter or receiver). (AKE transition table) the authentication state machine of Conversation.Receive is extracted from the code by flow-sensitive interpretation starting where the type byte of the base64-decoded message is read — for every (message type in {DH-Commit, DH-Key, Reveal-Signature, Signature} x authState in {None, AwaitingDHKey, AwaitingRevealSig, AwaitingSig}, and both outcomes of the commit comparison / duplicate-key test) the sequence of protocol steps (Conversation methods) performed on the success path, which produced message is passed to encode, the successor authState, the message state, the reported SecurityChange and whether a certainly non-nil error is returned — and compared with the OTR version 2 specification's table (in particular: a repeated D-H Commit in AwaitingRevealSig retransmits the SAME D-H Key, every other acceptance of a commit generates a fresh one after reset; the winner of a SYN-crossing retransmits its commit; Reveal-Signature / Signature are processed only in their awaiting states and alone switch the message state to encrypted); the data path is walked for each message state: processData is reached from stateEncrypted only; a query (walked from the entry of Receive) resets, sends a fresh commit and awaits the D-H Key. (fragments) the reassembly automaton of processFragment is extracted the same way with byte slices represented by their lengths, over k, n, stored k, stored n in 0..3 and an empty / non-empty payload (512 cases): rejection, the stored fragment (untouched / payload / old+payload / empty), the stored counters and the returned complete message are compared with the specification's rules. (data MAC) in processData and its helpers the decryption, the counter update, both key-id advances (key rotation) and every non-nil plaintext result are reachable only behind a success edge of the constant-time comparison (subtle.ConstantTimeCompare == 1 or hmac.Equal, also when it is merged into a flag, negated, or returned by a helper as bool / error) between the computed HMAC and the 20-byte MAC field of the message; the MAC is HMAC-SHA1 keyed with the receiving slot key over exactly the received bytes that precede the MAC field; the counter-regression test precedes decryption and the counter update. (SMP dispatch) for every (TLV type x SMP state) the set of reachable handler calls and state stores in processSMP and its non-step helpers, with the reads of tlv.typ and smpState.state bound by field, equals the specification's (wrong-state messages reset and answer with an abort) and no panic is reachable; the TLV types Receive forwards are exactly those processSMP handles, so its default panic is unreachable. (panics) every explicit panic reachable from Receive in the call graph is justified by its content (message text, or the standard-library call whose error it reports: random-source or primitive failure = environment; the auth-state default is evaluated to be unreachable for each of the four states, which are the only values ever assigned; the SMP default is discharged by the table above); constant indices into decoded slices (the header bytes of the decoded message, the MPI lists of the four SMP processors, the getUxx helpers) are unreachable when the slice is shorter (evaluated for every length 0..21, the length test being in the function or in a helper that receives the slice). NOT decided: that honest peers derive equal keys (modular arithmetic), SMP zero-knowledge proof arithmetic, delivery of every message, implicit panics on variable indices.",
+		assumptions: []string{"VTA call graph over-approximates interface dispatch", "the reference tables transcribe the OTR v2 protocol description (sections 'The protocol state machine', 'Fragmentation', 'Socialist Millionaires Protocol')", "the protocol steps are the existing Conversation methods (processDHCommit, reset, generateDHKey, encode, processSMP1..4, ...): a refactoring that dissolves one of them changes the observed vocabulary"},
 	})
-	tech("C47", "flow-sensitive finite-domain extraction of the AKE / fragment / SMP transition tables compared with the specification tables; must-cross CFG rule for the data MAC; call-graph enumeration of explicit panics; constant-index guard evaluation over all short lengths")
+	tech("C47", "flow-sensitive finite-domain interpretation (helpers inlined) of the AKE / fragment automata and role-bound interprocedural reachability for the SMP table, compared with the specification tables; value-sensitive interprocedural must-cross rule for the data MAC; call-graph enumeration of explicit panics justified by content; constant-index guard evaluation over all short lengths")
 }
 
 func runC47(c *Ctx) {
@@ -28,6 +27,14 @@ func runC47(c *Ctx) {
 	c47SMP(c)
 	c47Panics(c)
 	c47IndexGuards(c)
+	// debugging aid: C47_DEBUG=1 prints every obligation
+	if os.Getenv("C47_DEBUG") != "" {
+		for _, o := range c.obligs {
+			if strings.HasPrefix(o.Rule, "C47.") && o.Rule != "C47.bounds-sweep" {
+				fmt.Fprintf(os.Stderr, "  %-10s %-16s %-45s %-18s %s\n", o.Verdict, o.Rule, o.Construct, o.Pos, o.Detail)
+			}
+		}
+	}
 }
 
 func (c *Ctx) pkgConst(pkgPath, name string) (int64, bool) {
@@ -83,765 +90,4 @@ var akeSpec = []akeCase{
 	{"Sig", "AwaitingDHKey", "", "", "", false},
 	{"Sig", "AwaitingRevealSig", "", "", "", false},
 	{"Sig", "AwaitingSig", "", "processSig", "None", true},
-}
-
-func c47AKE(c *Ctx) {
-	f := c.fn("otr", "(*Conversation).Receive")
-	if f == nil {
-		return
-	}
-	cv := func(n string) int64 {
-		v, ok := c.pkgConst("otr", n)
-		if !ok {
-			c.fail("C47.ake-table", "constant "+n, f, "constant not found")
-		}
-		return v
-	}
-	msgT := map[string]int64{"DHCommit": cv("msgTypeDHCommit"), "DHKey": cv("msgTypeDHKey"), "RevealSig": cv("msgTypeRevealSig"), "Sig": cv("msgTypeSig")}
-	authT := map[string]int64{"None": cv("authStateNone"), "AwaitingDHKey": cv("authStateAwaitingDHKey"), "AwaitingRevealSig": cv("authStateAwaitingRevealSig"), "AwaitingSig": cv("authStateAwaitingSig")}
-	authName := map[int64]string{}
-	for k, v := range authT {
-		authName[v] = k
-	}
-	stPlain, stEnc := cv("statePlaintext"), cv("stateEncrypted")
-	newKeys := cv("NewKeys")
-	// msgType: the int conversion of the load of msg[2]
-	var msgType ssa.Value
-	allInstrs(f, func(in ssa.Instruction) {
-		cvt, ok := in.(*ssa.Convert)
-		if !ok {
-			return
-		}
-		if u, ok := cvt.X.(*ssa.UnOp); ok && u.Op == token.MUL {
-			if ia, ok := u.X.(*ssa.IndexAddr); ok {
-				if k, isK := constInt(ia.Index); isK && k == 2 {
-					msgType = cvt
-				}
-			}
-		}
-	})
-	if msgType == nil {
-		c.undecided("C47.ake-table", "Receive message type", f, "int(msg[2]) not found")
-		return
-	}
-	start := msgType.(ssa.Instruction).Block()
-	var cmpRes, sameRes []ssa.Value
-	for _, ci := range calls(f, func(n string) bool { return strings.HasSuffix(n, ").compareToDHCommit") }) {
-		cmpRes = append(cmpRes, resultN(ci.(*ssa.Call), 0)...)
-	}
-	for _, ci := range calls(f, func(n string) bool { return strings.HasSuffix(n, ").processDHKey") }) {
-		sameRes = append(sameRes, resultN(ci.(*ssa.Call), 0)...)
-	}
-	for _, sp := range akeSpec {
-		name := fmt.Sprintf("%s in auth state %s", sp.msg, sp.auth)
-		if sp.variant != "" {
-			name += " (" + sp.variant + ")"
-		}
-		w := &pathWalker{env: newEnv(), assumeErrNil: true, noAuto: true}
-		w.env.bind(msgType, msgT[sp.msg])
-		switch sp.variant {
-		case "cmp>0":
-			for _, v := range cmpRes {
-				w.env.bind(v, 1)
-			}
-		case "cmp<=0":
-			for _, v := range cmpRes {
-				w.env.bind(v, -1)
-			}
-		case "same":
-			for _, v := range sameRes {
-				w.env.bind(v, 1)
-			}
-		case "different":
-			for _, v := range sameRes {
-				w.env.bind(v, 0)
-			}
-		}
-		w.state = map[string]int64{"c.authState": authT[sp.auth], "c.state": stPlain}
-		var toks []string
-		w.onCall = func(w *pathWalker, ci ssa.CallInstruction) string {
-			cc := ci.Common()
-			if short(calleeName(cc)) == "errors.New" {
-				toks = append(toks, "ERR")
-				return ""
-			}
-			m := convMethod(cc)
-			switch m {
-			case "":
-				return ""
-			case "encode":
-				inner := "?"
-				if len(cc.Args) == 2 {
-					if ic, ok := cc.Args[1].(*ssa.Call); ok {
-						inner = convMethod(&ic.Call)
-					}
-				}
-				// the inner call was already recorded as the previous token
-				if len(toks) > 0 && toks[len(toks)-1] == inner {
-					toks = toks[:len(toks)-1]
-				}
-				if strings.HasPrefix(inner, "serialize") && sp.calls == "processDHKey send(RETRANSMIT)" {
-					inner = "RETRANSMIT"
-				}
-				toks = append(toks, "send("+inner+")")
-			default:
-				toks = append(toks, m)
-			}
-			return ""
-		}
-		end := w.walk(start, nil)
-		if end != "return" {
-			c.undecided("C47.ake-table", name, f, fmt.Sprintf("walk ended with %q: %s", end, w.why))
-			continue
-		}
-		got := strings.Join(toks, " ")
-		gotAuth := w.state["c.authState"]
-		wantAuth := authT[sp.auth]
-		if sp.nextAuth != "" {
-			wantAuth = authT[sp.nextAuth]
-		}
-		gotEnc := w.state["c.state"] == stEnc
-		chg := int64(-1)
-		if ret, ok := w.last.(*ssa.Return); ok && len(ret.Results) == 5 {
-			if n, ok := w.env.eval(ret.Results[2]); ok {
-				chg = n
-			}
-		}
-		gotNew := chg == newKeys
-		detail := fmt.Sprintf("calls [%s] -> authState %s, encrypted=%v, NewKeys=%v", got, authName[gotAuth], gotEnc, gotNew)
-		if got != sp.calls || gotAuth != wantAuth || gotEnc != sp.encrypted || gotNew != sp.encrypted {
-			c.fail("C47.ake-table", name, f, fmt.Sprintf("code: %s; OTR v2 table: calls [%s] -> authState %s, encrypted=%v", detail, sp.calls, authName[wantAuth], sp.encrypted))
-		} else {
-			c.ok("C47.ake-table", name, f, detail)
-		}
-	}
-	// data messages only in the encrypted state
-	var dataCalls []ssa.Instruction
-	for _, ci := range calls(f, func(n string) bool { return strings.HasSuffix(n, ").processData") }) {
-		dataCalls = append(dataCalls, ci)
-	}
-	okData := len(dataCalls) == 1
-	if okData {
-		for _, st := range []int64{stPlain, cv("stateFinished")} {
-			e := newEnv()
-			e.bindField(f, "Conversation", "state", st)
-			_, _, blocks := e.reachableExits(f, nil)
-			if blocks[dataCalls[0].Block()] {
-				okData = false
-			}
-		}
-	}
-	c.check(okData, "C47.ake-table", "data message outside the encrypted state", f, "processData is unreachable unless c.state == stateEncrypted", "a data message can be processed although no encrypted session is established")
-	// a query restarts the AKE: authState = AwaitingDHKey, reset, fresh commit
-	okQ := false
-	for _, ci := range calls(f, func(n string) bool { return strings.HasSuffix(n, ").generateDHCommit") }) {
-		b := ci.Block()
-		hasReset, hasState := false, false
-		for _, in := range b.Instrs {
-			if cc := callCommon(in); cc != nil && convMethod(cc) == "reset" {
-				hasReset = true
-			}
-			if st, ok := in.(*ssa.Store); ok && accessPath(st.Addr) == "c.authState" {
-				if k, isK := constInt(st.Val); isK && k == authT["AwaitingDHKey"] {
-					hasState = true
-				}
-			}
-		}
-		if hasReset && hasState {
-			okQ = true
-		}
-	}
-	c.check(okQ, "C47.ake-table", "query message", f, "a query resets the key state, sends a fresh D-H Commit and awaits the D-H Key", "a query does not (re)start the AKE with reset + fresh commit + AwaitingDHKey")
-}
-
-// ---------------------------------------------------------------------------
-// fragments
-
-type fragOut struct {
-	err      bool
-	frag     string // "new", "append", "clear", "" (untouched)
-	k, n     int64
-	complete bool
-}
-
-// fragReference: OTR v2 "Fragmentation" receiving rules.
-func fragReference(k, n, K, N int64) fragOut {
-	if k < 1 || n < 1 || k > n {
-		return fragOut{err: true, k: K, n: N}
-	}
-	var o fragOut
-	switch {
-	case k == 1:
-		o.frag, K, N = "new", k, n
-	case n == N && k == K+1:
-		o.frag, K = "append", K+1
-	default:
-		o.frag, K, N = "clear", 0, 0
-	}
-	if N > 0 && K == N {
-		o.complete = true
-		K, N = 0, 0
-	}
-	o.k, o.n = K, N
-	return o
-}
-
-func c47Fragment(c *Ctx) {
-	f := c.fn("otr", "(*Conversation).processFragment")
-	if f == nil {
-		return
-	}
-	atoi := callsNamed(f, "strconv.Atoi")
-	split := callsNamed(f, "bytes.Split")
-	if len(atoi) != 2 || len(split) != 1 {
-		c.undecided("C47.fragment", "processFragment", f, "expected two Atoi calls and one Split")
-		return
-	}
-	kv := resultN(atoi[0].(*ssa.Call), 0)
-	nv := resultN(atoi[1].(*ssa.Call), 0)
-	// Atoi[0] parses parts[0], Atoi[1] parts[1]
-	partIdx := func(ci ssa.CallInstruction) int64 {
-		arg := stripConv(ci.Common().Args[0])
-		if u, ok := arg.(*ssa.UnOp); ok {
-			if ia, ok := u.X.(*ssa.IndexAddr); ok {
-				if k, isK := constInt(ia.Index); isK {
-					return k
-				}
-			}
-		}
-		return -1
-	}
-	if partIdx(atoi[0]) != 0 || partIdx(atoi[1]) != 1 {
-		c.fail("C47.fragment", "fragment header fields", f, "k is not parsed from the first and n from the second comma-separated field")
-		return
-	}
-	bad, cases := 0, 0
-	var firstBad string
-	for k := int64(0); k <= 3; k++ {
-		for n := int64(0); n <= 3; n++ {
-			for K := int64(0); K <= 3; K++ {
-				for N := int64(0); N <= 3; N++ {
-					w := &pathWalker{env: newEnv(), assumeErrNil: true, noAuto: true}
-					for _, v := range kv {
-						w.env.bind(v, k)
-					}
-					for _, v := range nv {
-						w.env.bind(v, n)
-					}
-					w.env.bind(split[0].(*ssa.Call), 4) // four parts
-					allInstrs(f, func(in ssa.Instruction) {
-						if u, ok := in.(*ssa.UnOp); ok && u.Op == token.MUL {
-							if ia, ok := u.X.(*ssa.IndexAddr); ok && ia.X == ssa.Value(split[0].(*ssa.Call)) {
-								if idx, isK := constInt(ia.Index); isK && idx == 3 {
-									w.env.bind(u, 0) // last part empty
-								}
-							}
-						}
-					})
-					w.state = map[string]int64{"c.k": K, "c.n": N, "c.frag": 0}
-					// abstract value of c.frag: 0 untouched, 1 new, 2 append, 3 clear
-					w.absVal = func(v ssa.Value) (int64, bool) {
-						switch x := v.(type) {
-						case *ssa.Call:
-							if calleeName(&x.Call) == "builtin:append" && len(x.Call.Args) == 2 {
-								if sl, ok := x.Call.Args[0].(*ssa.Slice); ok && sl.High != nil {
-									if hk, isK := constInt(sl.High); isK && hk == 0 {
-										return 1, true
-									}
-								}
-								if accessPath(x.Call.Args[0]) == "c.frag" {
-									return 2, true
-								}
-							}
-						case *ssa.Slice:
-							if x.High != nil {
-								if hk, isK := constInt(x.High); isK && hk == 0 {
-									return 3, true
-								}
-							}
-						}
-						return 0, false
-					}
-					end := w.walk(f.Blocks[0], nil)
-					cases++
-					want := fragReference(k, n, K, N)
-					var got fragOut
-					if end != "return" {
-						bad++
-						if firstBad == "" {
-							firstBad = fmt.Sprintf("k=%d n=%d stored k=%d n=%d: walk %s (%s)", k, n, K, N, end, w.why)
-						}
-						continue
-					}
-					ret := w.last.(*ssa.Return)
-					got.err = isGlobalLoad(retVal(ret, 1), "fragmentError")
-					got.complete = accessPath(retVal(ret, 0)) == "c.frag"
-					got.k, got.n = w.state["c.k"], w.state["c.n"]
-					got.frag = []string{"", "new", "append", "clear"}[w.state["c.frag"]]
-					if got != want {
-						bad++
-						if firstBad == "" {
-							firstBad = fmt.Sprintf("k=%d n=%d stored k=%d n=%d: code %+v, specification %+v", k, n, K, N, got, want)
-						}
-					}
-				}
-			}
-		}
-	}
-	c.check(bad == 0 && cases == 256, "C47.fragment", "processFragment transition table", f,
-		fmt.Sprintf("all %d (k, n, stored k, stored n) cases in 0..3 agree with the OTR v2 reassembly rules", cases),
-		fmt.Sprintf("%d of %d cases differ from the OTR v2 reassembly rules; first: %s", bad, cases, firstBad))
-	// the prefix removed is the fragment prefix and the separator is ','
-	fp, _ := c.bytesGlobal("otr", "fragmentPrefix")
-	sep, _ := c.bytesGlobal("otr", "fragmentPartSeparator")
-	c.check(fp == "?OTR," && sep == ",", "C47.fragment", "fragment framing constants", f, "prefix \"?OTR,\" and separator \",\"", "fragment prefix/separator constants differ from the specification")
-}
-
-// ---------------------------------------------------------------------------
-// data message MAC gate
-
-func c47DataMAC(c *Ctx) {
-	f := c.fn("otr", "(*Conversation).processData")
-	if f == nil {
-		return
-	}
-	ctc := callsNamed(f, "crypto/subtle.ConstantTimeCompare")
-	if len(ctc) != 1 {
-		c.fail("C47.mac-gate", "processData", f, "expected exactly one constant-time comparison")
-		return
-	}
-	cmp := ctc[0].(*ssa.Call)
-	// success edges: ConstantTimeCompare != 0 (== 1)
-	pass := edgesImplying(cmp, []int64{0, 1}, func(d int64) bool { return d == 1 })
-	cut := edgeSet{}
-	cut.addAll(pass)
-	var sinks []ssa.Instruction
-	sinkName := map[ssa.Instruction]string{}
-	add := func(in ssa.Instruction, n string) { sinks = append(sinks, in); sinkName[in] = n }
-	for _, ci := range calls(f, func(n string) bool { return strings.Contains(n, "XORKeyStream") }) {
-		add(ci, "decryption (XORKeyStream)")
-	}
-	for _, ci := range calls(f, func(n string) bool { return strings.HasSuffix(n, ").rotateDHKeys") }) {
-		add(ci, "key rotation")
-	}
-	for _, ci := range callsNamed(f, "builtin:copy") {
-		if strings.Contains(accessPath(sliceBase(ci.Common().Args[0])), "theirLastCtr") {
-			add(ci, "counter update")
-		}
-	}
-	for _, st := range storesTo(f, "Conversation", "theirKeyId") {
-		add(st, "their key id advance")
-	}
-	for _, r := range returnsOf(f) {
-		if len(r.Results) == 3 && !isNilConst(retVal(r, 0)) {
-			if cst, isC := retVal(r, 0).(*ssa.Const); !isC || !cst.IsNil() {
-				add(r, "plaintext return")
-			}
-		}
-	}
-	if len(sinks) < 5 {
-		c.fail("C47.mac-gate", "processData sinks", f, fmt.Sprintf("only %d of the expected effects (decrypt, rotate, counter, key id, plaintext) found", len(sinks)))
-	}
-	for _, s := range sinks {
-		// a return whose plaintext result is the nil constant on every incoming path is not a sink
-		if r, isRet := s.(*ssa.Return); isRet {
-			allNil := true
-			for _, leaf := range phiLeaves(retVal(r, 0)) {
-				if !isNilConst(leaf.val) {
-					allNil = false
-				}
-			}
-			if allNil {
-				continue
-			}
-		}
-		c.check(len(pass) > 0 && !pathFromEntry(s, cut), "C47.mac-gate", sinkName[s], s, "reachable only on the success edge of ConstantTimeCompare", "reachable without passing the MAC comparison: "+sinkName[s])
-	}
-	// equal-length test guards the comparison result's meaning: len(myMAC) != len(theirMAC) -> reject
-	// (ConstantTimeCompare returns 0 for unequal lengths, so the success edge already implies it.)
-	// MAC construction: hmac.New(sha1.New, slot.recvMACKey); Write({0,2,3}); Write(origIn[:len(origIn)-len(in)])
-	hm := callsNamed(f, "crypto/hmac.New")
-	okKey := len(hm) == 1 && isField(hm[0].Common().Args[1], "keySlot", "recvMACKey") && funcValueName(hm[0].Common().Args[0]) == "crypto/sha1.New"
-	c.check(okKey, "C47.mac-gate", "MAC algorithm and key", f, "HMAC-SHA1 keyed with the slot's receiving MAC key", "the data MAC is not HMAC-SHA1 under the slot's receiving MAC key")
-	// the compared values: one is mac.Sum(nil) of that hmac, the other is the 20-byte field from the message
-	okArgs := false
-	{
-		a, b := cmp.Call.Args[0], cmp.Call.Args[1]
-		isSum := func(v ssa.Value) bool {
-			cl, ok := v.(*ssa.Call)
-			return ok && cl.Call.IsInvoke() && cl.Call.Method.Name() == "Sum" && len(hm) == 1 && cl.Call.Value == callValue(hm[0])
-		}
-		isWire := func(v ssa.Value) bool {
-			ex, ok := v.(*ssa.Extract)
-			if !ok || ex.Index != 0 {
-				return false
-			}
-			cl, ok := ex.Tuple.(*ssa.Call)
-			if !ok || short(calleeName(&cl.Call)) != "otr.getNBytes" {
-				return false
-			}
-			k, isK := constInt(cl.Call.Args[1])
-			return isK && k == 20
-		}
-		okArgs = isSum(a) && isWire(b) || isSum(b) && isWire(a)
-	}
-	c.check(okArgs, "C47.mac-gate", "compared values", cmp, "the computed HMAC is compared with the 20-byte MAC field of the message", "the comparison is not between the computed HMAC and the message's MAC field")
-	// MAC'd region = origIn[: len(origIn) - len(rest after the encrypted payload)]
-	okRegion := false
-	if len(hm) == 1 {
-		for _, r := range *callValue(hm[0]).Referrers() {
-			cl, ok := r.(*ssa.Call)
-			if !ok || !cl.Call.IsInvoke() || cl.Call.Method.Name() != "Write" {
-				continue
-			}
-			sl, ok := cl.Call.Args[0].(*ssa.Slice)
-			if !ok || sl.X != ssa.Value(f.Params[1]) || sl.Low != nil || sl.High == nil {
-				continue
-			}
-			sub, ok := sl.High.(*ssa.BinOp)
-			if !ok || sub.Op != token.SUB {
-				continue
-			}
-			l1, ok1 := sub.X.(*ssa.Call)
-			l2, ok2 := sub.Y.(*ssa.Call)
-			if !ok1 || !ok2 || calleeName(&l1.Call) != "builtin:len" || calleeName(&l2.Call) != "builtin:len" || l1.Call.Args[0] != ssa.Value(f.Params[1]) {
-				continue
-			}
-			// l2's operand: the remainder returned by the getData call that produced the encrypted payload,
-			// which is the remainder passed to the getNBytes(…, 20) call reading the MAC
-			if ex, ok := l2.Call.Args[0].(*ssa.Extract); ok && ex.Index == 1 {
-				if gd, ok := ex.Tuple.(*ssa.Call); ok && short(calleeName(&gd.Call)) == "otr.getData" {
-					for _, rr := range *ex.Referrers() {
-						if nb, ok := rr.(*ssa.Call); ok && short(calleeName(&nb.Call)) == "otr.getNBytes" {
-							okRegion = true
-						}
-					}
-				}
-			}
-		}
-	}
-	c.check(okRegion, "C47.mac-gate", "MAC'd region", f, "the MAC covers the received bytes from the start of the message up to (not including) the MAC field", "the MAC does not cover exactly the received bytes that precede the MAC field")
-	// counter regression precedes decryption
-	var regress []edge
-	for _, ci := range callsNamed(f, "bytes.Compare") {
-		regress = append(regress, edgesImplying(ci.(*ssa.Call), []int64{-1, 0, 1}, func(d int64) bool { return d > 0 })...)
-	}
-	cut2 := edgeSet{}
-	cut2.addAll(regress)
-	okCtr := len(regress) > 0
-	for _, ci := range calls(f, func(n string) bool { return strings.Contains(n, "XORKeyStream") }) {
-		if pathFromEntry(ci, cut2) {
-			okCtr = false
-		}
-	}
-	c.check(okCtr, "C47.mac-gate", "counter monotonic", f, "decryption happens only when the message counter is greater than the slot's last counter", "a replayed or regressed counter reaches decryption")
-}
-
-// ---------------------------------------------------------------------------
-// SMP dispatch
-
-func c47SMP(c *Ctx) {
-	f := c.fn("otr", "(*Conversation).processSMP")
-	if f == nil {
-		return
-	}
-	cv := func(n string) int64 {
-		v, ok := c.pkgConst("otr", n)
-		if !ok {
-			c.fail("C47.smp-table", "constant "+n, f, "constant not found")
-		}
-		return v
-	}
-	types_ := []string{"tlvTypeSMP1", "tlvTypeSMP2", "tlvTypeSMP3", "tlvTypeSMP4", "tlvTypeSMPAbort", "tlvTypeSMP1WithQuestion"}
-	states := []string{"smpState1", "smpState2", "smpState3", "smpState4"}
-	expectState := map[string]string{"tlvTypeSMP1": "smpState1", "tlvTypeSMP1WithQuestion": "smpState1", "tlvTypeSMP2": "smpState2", "tlvTypeSMP3": "smpState3", "tlvTypeSMP4": "smpState4"}
-	handler := map[string]string{"tlvTypeSMP1": "processSMP1", "tlvTypeSMP1WithQuestion": "processSMP1", "tlvTypeSMP2": "processSMP2", "tlvTypeSMP3": "processSMP3", "tlvTypeSMP4": "processSMP4"}
-	nextState := map[string]string{"tlvTypeSMP1": "smpState3", "tlvTypeSMP1WithQuestion": "smpState3", "tlvTypeSMP2": "smpState4", "tlvTypeSMP3": "smpState1", "tlvTypeSMP4": "smpState1"}
-	// the typ field of the parameter
-	var typLoads []ssa.Value
-	allInstrs(f, func(in ssa.Instruction) {
-		switch x := in.(type) {
-		case *ssa.Field:
-			if _, fld, _, ok := fieldOf(x); ok && fld == "typ" {
-				typLoads = append(typLoads, x)
-			}
-		case *ssa.UnOp:
-			if x.Op == token.MUL {
-				if _, fld, _, ok := fieldOf(x.X); ok && fld == "typ" {
-					typLoads = append(typLoads, x)
-				}
-			}
-		}
-	})
-	if len(typLoads) == 0 {
-		c.undecided("C47.smp-table", "processSMP", f, "loads of in.typ not found")
-		return
-	}
-	relevant := map[string]bool{"processSMP1": true, "processSMP2": true, "processSMP3": true, "processSMP4": true, "generateSMP2": true, "generateSMPAbort": true, "resetSMP": true}
-	for _, tn := range types_ {
-		for _, sn := range states {
-			e := newEnv()
-			for _, v := range typLoads {
-				e.bind(v, cv(tn))
-			}
-			e.bindPath(f, "c.smp.state", cv(sn))
-			pans, _, blocks := e.reachableExits(f, nil)
-			got := map[string]bool{}
-			allInstrs(f, func(in ssa.Instruction) {
-				if !blocks[in.Block()] {
-					return
-				}
-				if cc := callCommon(in); cc != nil {
-					if m := convMethod(cc); relevant[m] {
-						got[m] = true
-					}
-				}
-			})
-			var stStores []int64
-			for _, st := range storesTo(f, "smpState", "state") {
-				if blocks[st.Block()] {
-					if k, ok := constInt(st.Val); ok {
-						stStores = append(stStores, k)
-					}
-				}
-			}
-			want := map[string]bool{}
-			var wantStores []int64
-			switch {
-			case tn == "tlvTypeSMPAbort":
-				want["resetSMP"] = true
-			case expectState[tn] == sn:
-				want[handler[tn]] = true
-				wantStores = append(wantStores, cv(nextState[tn]))
-				if handler[tn] == "processSMP1" {
-					want["generateSMP2"] = true
-				}
-				if handler[tn] == "processSMP2" || handler[tn] == "processSMP4" {
-					want["generateSMPAbort"] = true // on a failed proof
-				}
-			default:
-				want["resetSMP"] = true
-				want["generateSMPAbort"] = true
-			}
-			keys := func(m map[string]bool) string {
-				var ks []string
-				for k := range m {
-					ks = append(ks, k)
-				}
-				sort.Strings(ks)
-				return strings.Join(ks, ",")
-			}
-			name := fmt.Sprintf("%s in %s", tn, sn)
-			okRow := keys(got) == keys(want) && fmt.Sprint(stStores) == fmt.Sprint(wantStores) && len(pans) == 0
-			c.check(okRow, "C47.smp-table", name, f, fmt.Sprintf("reachable handlers {%s}, state stores %v, no panic", keys(got), stStores),
-				fmt.Sprintf("code reaches {%s} with state stores %v and %d panic(s); the SMP state machine prescribes {%s} with state stores %v", keys(got), stStores, len(pans), keys(want), wantStores))
-		}
-	}
-	// any other TLV type reaches the panic: Receive must never forward one
-	recv := c.fn("otr", "(*Conversation).Receive")
-	if recv != nil {
-		var call ssa.CallInstruction
-		for _, ci := range calls(recv, func(n string) bool { return strings.HasSuffix(n, ").processSMP") }) {
-			call = ci
-		}
-		okFwd := call != nil
-		if okFwd {
-			var tl []ssa.Value
-			allInstrs(recv, func(in ssa.Instruction) {
-				switch x := in.(type) {
-				case *ssa.Field:
-					if _, fld, _, ok := fieldOf(x); ok && fld == "typ" {
-						tl = append(tl, x)
-					}
-				case *ssa.UnOp:
-					if x.Op == token.MUL {
-						if _, fld, _, ok := fieldOf(x.X); ok && fld == "typ" {
-							tl = append(tl, x)
-						}
-					}
-				}
-			})
-			handled := map[int64]bool{}
-			for _, tn := range types_ {
-				handled[cv(tn)] = true
-			}
-			for v := int64(0); v <= 16; v++ {
-				e := newEnv()
-				for _, t := range tl {
-					e.bind(t, v)
-				}
-				_, _, blocks := e.reachableExits(recv, nil)
-				if blocks[call.Block()] != handled[v] {
-					okFwd = false
-				}
-			}
-			okFwd = okFwd && len(tl) > 0
-		}
-		c.check(okFwd, "C47.smp-table", "Receive forwards exactly the SMP TLV types", recv, "TLV types 0..16: processSMP is reachable exactly for the six types its switches handle", "Receive forwards a TLV type that processSMP's switch does not handle (its default panics), or drops an SMP type")
-	}
-}
-
-// ---------------------------------------------------------------------------
-// panics
-
-func c47Panics(c *Ctx) {
-	recv := c.fn("otr", "(*Conversation).Receive")
-	if recv == nil {
-		return
-	}
-	env := "environment failure (random source / crypto primitive refuses a correctly sized key); not input-dependent"
-	table := map[string]string{
-		"otr.(*Conversation).randMPI: otr: short read from random source":           env,
-		"otr.(*Conversation).generateDHCommit: otr: short read from random source":  env,
-		"otr.(*Conversation).generateDHCommit: invoke:(error).Error":                env + " (aes.NewCipher on the 16-byte r)",
-		"otr.(*Conversation).generateEncryptedSignature: invoke:(error).Error":      env + " (aes.NewCipher on a 16-byte derived key)",
-		"otr.(*Conversation).processEncryptedSig: invoke:(error).Error":             env + " (aes.NewCipher on a 16-byte derived key)",
-		"otr.(*Conversation).processData: invoke:(error).Error":                     env + " (aes.NewCipher on the 16-byte slot key)",
-		"otr.(*Conversation).generateData: invoke:(error).Error":                    env + " (aes.NewCipher on the 16-byte slot key)",
-		"otr.(*Conversation).generateData: otr: failed to generate sending keys: …": "calcDataKeys(myKeyId-1, theirKeyId) with the conversation's own current ids; the slot exists once the AKE completed, which C47.ake-table ties to stateEncrypted",
-		"otr.(*PrivateKey).Sign: invoke:(error).Error":                              env + " (dsa.Sign)",
-		"otr.(*PrivateKey).Sign: DSA signature too large":                           "r, s < q (160 bits) by dsa.Sign's contract",
-		"otr.(*Conversation).Receive: bad state":                                    "authState takes only the four constants (C47.ake-table covers all four; who-may-write check below)",
-		"otr.(*Conversation).processSMP: unknown SMP message":                       "discharged by C47.smp-table (Receive forwards exactly the handled TLV types)",
-	}
-	sites := c.explicitPanics([]*ssa.Function{recv}, "otr")
-	seen := map[string]bool{}
-	for _, s := range sites {
-		key := s.key
-		if key == "otr.(*Conversation).generateData: " {
-			key = "otr.(*Conversation).generateData: otr: failed to generate sending keys: …"
-		}
-		if seen[key] {
-			continue
-		}
-		seen[key] = true
-		if why, ok := table[key]; ok {
-			c.ok("C47.panic-site", key, s.p, why)
-		} else {
-			c.fail("C47.panic-site", key, s.p, "explicit panic reachable from Receive and not in the checker's justified table")
-		}
-	}
-	c.check(len(seen) >= 6, "C47.panic-site", "reachable explicit panics", recv, fmt.Sprintf("%d distinct sites enumerated", len(seen)), "call graph lost: too few panic sites enumerated")
-	// who-may-write authState: only the four constants
-	vals := map[int64]bool{}
-	okW := true
-	for _, fn := range c.funcsOfPkg("otr") {
-		for _, st := range storesTo(fn, "Conversation", "authState") {
-			k, ok := constInt(st.Val)
-			if !ok {
-				okW = false
-			}
-			vals[k] = true
-		}
-	}
-	for k := range vals {
-		if k < 0 || k > 3 {
-			okW = false
-		}
-	}
-	c.check(okW && len(vals) >= 4, "C47.panic-site", "authState writers", recv, "authState is only ever assigned the four state constants", "authState can be assigned a value outside the four handled states")
-}
-
-// ---------------------------------------------------------------------------
-// constant-index guards
-
-// constIndexGuard: for every length L in 0..maxLen of the slice value s in fn,
-// no IndexAddr on s with a constant index >= L (and no constant-bound reslice
-// beyond L) is reachable when every len(s) evaluates to L.
-func (c *Ctx) constIndexGuard(rule, name string, fn *ssa.Function, isS func(v ssa.Value) bool, maxLen int64) {
-	var lens []ssa.Value
-	type site struct {
-		in ssa.Instruction
-		k  int64
-	}
-	var sites []site
-	allInstrs(fn, func(in ssa.Instruction) {
-		switch x := in.(type) {
-		case *ssa.Call:
-			if calleeName(&x.Call) == "builtin:len" && isS(x.Call.Args[0]) {
-				lens = append(lens, x)
-			}
-		case *ssa.IndexAddr:
-			if isS(x.X) {
-				if k, ok := constInt(x.Index); ok {
-					sites = append(sites, site{x, k + 1})
-				}
-			}
-		case *ssa.Slice:
-			if isS(x.X) {
-				need := int64(0)
-				if x.Low != nil {
-					if k, ok := constInt(x.Low); ok && k > need {
-						need = k
-					}
-				}
-				if x.High != nil {
-					if k, ok := constInt(x.High); ok && k > need {
-						need = k
-					}
-				}
-				if need > 0 {
-					sites = append(sites, site{x, need})
-				}
-			}
-		}
-	})
-	if len(sites) == 0 {
-		c.ok(rule, name, fn, "no constant index into the decoded slice")
-		return
-	}
-	if len(lens) == 0 {
-		c.fail(rule, name, sites[0].in, fmt.Sprintf("constant index needing length %d but the function never tests the length", sites[0].k))
-		return
-	}
-	for L := int64(0); L <= maxLen; L++ {
-		e := newEnv()
-		for _, l := range lens {
-			e.bind(l, L)
-		}
-		e.solve(fn)
-		for _, s := range sites {
-			if s.k > L && e.reach[s.in.Block()] {
-				c.fail(rule, name, s.in, fmt.Sprintf("with length %d an access needing length >= %d is reachable (index out of range panic)", L, s.k))
-				return
-			}
-		}
-	}
-	c.ok(rule, name, fn, fmt.Sprintf("%d constant-index accesses are unreachable for every shorter length (0..%d evaluated)", len(sites), maxLen))
-}
-
-func c47IndexGuards(c *Ctx) {
-	for _, n := range []string{"processSMP1", "processSMP2", "processSMP3", "processSMP4"} {
-		f := c.fn("otr", "(*Conversation)."+n)
-		if f == nil {
-			continue
-		}
-		p := f.Params[1]
-		c.constIndexGuard("C47.index-guard", n+" MPI list", f, func(v ssa.Value) bool { return v == ssa.Value(p) }, 21)
-	}
-	for _, n := range []string{"getU8", "getU16", "getU32", "getNBytes"} {
-		f := c.fn("otr", n)
-		if f == nil {
-			continue
-		}
-		p := f.Params[0]
-		c.constIndexGuard("C47.index-guard", n, f, func(v ssa.Value) bool { return v == ssa.Value(p) }, 8)
-	}
-	// Receive: msg[0], msg[1], msg[2], msg[3:] behind len(msg) < 3
-	if f := c.fn("otr", "(*Conversation).Receive"); f != nil {
-		// msg after truncation: the Slice msg[:msgLen]
-		var msgV ssa.Value
-		allInstrs(f, func(in ssa.Instruction) {
-			if ia, ok := in.(*ssa.IndexAddr); ok {
-				if k, isK := constInt(ia.Index); isK && k == 2 {
-					msgV = ia.X
-				}
-			}
-		})
-		if msgV == nil {
-			c.undecided("C47.index-guard", "Receive header", f, "msg[2] not found")
-		} else {
-			c.constIndexGuard("C47.index-guard", "Receive header bytes", f, func(v ssa.Value) bool { return v == msgV }, 6)
-		}
-	}
 }
